@@ -21,7 +21,7 @@ def spec_verus_text():
         if f.endswith('_v.rs'):
             parts.append(specgen.verus_form(open(os.path.join(d, f), encoding='utf-8').read()))
     for f in files:
-        if f.endswith('.rs') and not f.endswith('_v.rs'):
+        if f.endswith('.rs') and not f.endswith('_v.rs') and not f.endswith('_p.rs'):
             parts.append(specgen.verus_form(open(os.path.join(d, f), encoding='utf-8').read()))
     return '\n'.join(parts)
 
